@@ -4,7 +4,6 @@ package cl
 
 import (
 	"fmt"
-	"io"
 	"time"
 
 	"github.com/ohler55/slip"
@@ -48,7 +47,7 @@ func (f *Time) Call(s *slip.Scope, args slip.List, depth int) (result slip.Objec
 	t0 := time.Now()
 	result = slip.EvalArg(s, args, 0, depth+1)
 	dur := time.Since(t0)
-	w := s.Get("*trace-output*").(io.Writer)
+	w := s.WriterVar("*trace-output*", depth)
 	_, _ = fmt.Fprintf(w, "Evaluation took:\n  %d.%09d seconds of real time\n", dur/time.Second, dur%time.Second)
 	return
 }
